@@ -20,6 +20,8 @@ type program struct {
 	InitTicks int
 	// ChanInLit: a function literal of the program blocks in a channel operation.
 	ChanInLit bool
+	// Crowd: thousands of workers blocked in a callee (Blocking.tla Crowd); cancelled once all are blocked.
+	Crowd bool
 }
 
 var programs = []program{
